@@ -300,6 +300,10 @@ fn run_shard<P: Prop>(
     let rng = TestRng::from_seed(RngAlgorithm::ChaCha, &shard_seed(opts.seed, prop.id(), shard));
     let mut runner = TestRunner::new_with_rng(config, rng);
     let strategy = prop.strategy(opts.tier);
+    // the first failing case as it was found (kept in case the minimal one does
+    // not fail the same way when it is re-run, e.g. because the library keeps
+    // state outside the contexts)
+    let first: RefCell<Option<(P::Case, Vec<Failure>)>> = RefCell::new(None);
     let result = runner.run(&strategy, |case| {
         {
             let s = st.borrow();
@@ -323,6 +327,7 @@ fn run_shard<P: Prop>(
         if let Some(f) = unk.first() {
             s.failed = true;
             s.target_sig = Some(f.sig.clone());
+            *first.borrow_mut() = Some((case.clone(), unk.iter().map(|f| (*f).clone()).collect()));
             stop.store(true, Ordering::Relaxed);
             return Err(TestCaseError::fail(f.sig.clone()));
         }
@@ -334,7 +339,12 @@ fn run_shard<P: Prop>(
         Err(TestError::Fail(_, minimal)) => {
             let res = safe_run(prop, &minimal);
             let fs: Vec<Failure> = unknown_failures(prop.id(), known, &res).into_iter().cloned().collect();
-            violation = Some((minimal, fs));
+            let target = st.borrow().target_sig.clone();
+            let same = fs.iter().any(|f| Some(&f.sig) == target.as_ref());
+            violation = match (same, first.borrow_mut().take()) {
+                (false, Some(orig)) => Some(orig),
+                _ => Some((minimal, fs)),
+            };
         }
         Err(TestError::Abort(r)) => {
             aborted = Some(format!("{}", r));
@@ -394,10 +404,14 @@ pub fn run_property<P: Prop>(prop: &P, opts: &RunOpts) -> RunSummary {
         }
         // several shards may have found one: keep the smallest case
         if let Some(v) = o.violation {
+            // a case that merely observed state left behind by another case (a
+            // signature ending in `process_state_left_by_earlier_calls`) is the
+            // worse witness: prefer the case whose own history caused it
+            let secondhand = |fs: &Vec<Failure>| fs.iter().all(|f| f.sig.ends_with("process_state_left_by_earlier_calls"));
             let size = |c: &P::Case| serde_json::to_string(c).map(|t| t.len()).unwrap_or(usize::MAX);
             let better = match &violation {
                 None => true,
-                Some((cur, _)) => size(&v.0) < size(cur),
+                Some((cur, cf)) => (secondhand(cf), size(cur)) > (secondhand(&v.1), size(&v.0)),
             };
             if better {
                 violation = Some(v);
